@@ -7,7 +7,7 @@ Definition in_domain_target (t : pv) : bool :=
   | PNone => true
   | PStr (_ :: _) => true
   | PInt z => negb (Z.eqb z 0)
-  | PList (_ :: _ as l) | PTuple (_ :: _ as l) =>
+  | PList ((_ :: _) as l) | PTuple ((_ :: _) as l) =>
       forallb (fun r => match r with PStr (_ :: _) => true | PInt z => negb (Z.eqb z 0) | _ => false end) l
   | _ => false
   end.
